@@ -208,7 +208,7 @@ func ruleP19CmdEffects(p *Prog, r *Report) {
 			continue
 		}
 		// unconditional
-		r.check(len(guardsOf(op.Block())) == 0, rule, s.cmd+":effect", p.instrPos(op), s.op+"() is applied unconditionally to the collection given", s.op+"() is applied only conditionally")
+		r.check(len(guardsOf(op.Block())) == 0 && skippableAt(op.Block(), nil) == nil, rule, s.cmd+":effect", p.instrPos(op), s.op+"() is applied unconditionally to the collection given", s.op+"() is applied only conditionally")
 		// once the database has been written the command has happened: no failure is reported
 		// afterwards (every check that can refuse the command comes before the write)
 		if e := resultOf(call, 0); e != nil {
@@ -686,7 +686,7 @@ func ruleP19JsonSym(p *Prog, r *Report) {
 	}
 	// ToJson fills name and path from the bookmark
 	okFields := 0
-	eachInstr(tj, func(in ssa.Instruction) {
+	eachVInstr(tj, func(in ssa.Instruction) {
 		st, ok := in.(*ssa.Store)
 		if !ok {
 			return
@@ -865,6 +865,55 @@ func ruleP19Names(p *Prog, r *Report) {
 		})
 	}
 	r.check(okGet, "P19-resolve", "at-name", p.pos(fr.Pos()), "@name resolves through bookmarks.Get(NewName(arg))", "@name arguments are not resolved through Get(NewName(arg))")
+	// … and through nothing else: whenever the argument has the form of a bookmark name, the
+	// only path that is opened is the target of the bookmark found (an unknown name is an
+	// error, never a file that happens to be called like that)
+	if newFile := p.fn("klog/app", "NewFile"); newFile != nil {
+		nOpen := 0
+		for _, vc := range virtualCallsTo(fr, newFile) {
+			vc.run(func() {
+				opened := vc.call.Common().Args[0]
+				if es, ok := sliceLitElems(opened); ok && len(es) == 1 {
+					opened = es[0] // NewFile(path ...string)
+				}
+				for _, rw := range valueRows(opened, 0, map[ssa.Value]bool{}) {
+					if rw.errv != nil && !isNilConst(rw.errv) {
+						continue // handed back together with an error
+					}
+					isName := false
+					for _, g := range rw.guards {
+						if gc, ok := g.Cond.(*ssa.Call); ok && g.Pol {
+							if callee := staticCallee(gc); callee != nil && fnBase(callee) == "IsValidBookmarkName" {
+								isName = true
+							}
+						}
+					}
+					if !isName {
+						continue
+					}
+					nOpen++
+					okPath := false
+					if pc, ok := isInvokeOf(rw.val, "Path", 0); ok {
+						if _, recv, _, _ := methodCallOf(pc); recv != nil {
+							if tc, ok := isInvokeOf(recv, "Target", 0); ok {
+								if _, recv2, _, _ := methodCallOf(tc); recv2 != nil {
+									_, okPath = isInvokeOf(recv2, "Get", 0)
+								}
+							}
+						}
+					}
+					pos := p.instrPos(vc.call)
+					if rw.at != nil {
+						pos = p.instrPos(rw.at)
+					}
+					r.check(okPath, "P19-resolve", fmt.Sprintf("at-name:only#%d", nOpen), pos, "for an argument of bookmark-name form the path opened is the target of the bookmark found", "an argument of bookmark-name form can be opened as "+describeValue(rw.val)+" instead of the target of the bookmark found: `@name` reads something although no such bookmark is set")
+				}
+			})
+		}
+		if okGet && nOpen == 0 {
+			r.undecided("P19-resolve", "at-name:only", p.pos(fr.Pos()), "the path under which a bookmark-name argument is opened was not found")
+		}
+	}
 	r.check(okDefault, "P19-resolve", "no-args", p.pos(fr.Pos()), "no argument resolves through Default()", "without arguments the default bookmark is not consulted (only) when no argument is given")
 }
 
